@@ -141,7 +141,10 @@ def xcopy(a, spc5):
     pkey = "cscd_descriptor_parameters" if spc5 else "target_descriptor_parameters"
     cscd = b"".join(cscd_descriptor(d, pkey, d["_pdt"]) for d in a.get(lst, []))
     segs = b"".join(segment_descriptor(d, d["_code"], spc5) for d in a.get("segment_descriptor_list", []))
-    inline = bytes(a.get("inline_data", b""))
+    inline = a.get("inline_data", b"")
+    if isinstance(inline, dict):  # symbolic buffer {"fill": byte, "n": length}
+        inline = bytes([inline["fill"]]) * inline["n"]
+    inline = bytes(inline)
     if spc5:
         h = bytearray(48)
         h[0] = 0x01
